@@ -21,9 +21,17 @@
          restoring both fails half-way.  Hence the hypothesis [wd_flat].
    (F-2) `restore --staged x x` (a path named twice, staged but not in HEAD)
          answers Err after having unstaged x; likewise `restore --staged d d/x`.
-         Hence the hypothesis [NoDup] on the targets of (R2).
+         A repeated path that IS a file of HEAD is harmless.  Hence the
+         hypothesis [repeats_in_head] of (R2) (implied by [NoDup] of the targets;
+         [idx_targets_nodup] gives a sufficient condition on the arguments).
    (F-3) `restore --staged .` does not bring back the paths of HEAD that were
-         removed from the staging area: "." selects staged paths only. *)
+         removed from the staging area: "." selects staged paths only
+         ([rx_staged_dot]); [st_selected_spec] says so explicitly.
+   The exact description of what a directory argument selects in HEAD
+   ([head_dir_paths_complete], [st_selected_iff]) carries the hypothesis
+   [nodes_unique]: no two directory entries of one name in a tree.  Goit never
+   writes such trees but the history invariant of SnapshotFacts does not record
+   it.  Soundness ([head_dir_paths_sound]) and totality need no such hypothesis. *)
 From Coq Require Import Strings.String Strings.Byte.
 From Coq Require Import List Bool NArith ZArith Arith Lia Sorted.
 From Goit Require Import Bytes Sha1 Obj Tree Index Regex GoRegex Commit Reflog Config Ignore World Repo.
@@ -1337,3 +1345,327 @@ Proof.
     { apply (get_node_leaf_iff its Hwf Hc a). exists n. split; assumption. }
     apply (Hstg a) in Hin. exact (Hin H2).
 Qed.
+
+(* (R2) with the selection stated on the staging area and the snapshot only *)
+Corollary restore_staged_total_spec : forall e c w args its,
+  Reachable w -> w_coll w = false -> SmallStore (w_objs w) ->
+  w_inited w = true -> ctx_of w = Some c ->
+  head_nodes c w = Some (map node_of its) ->
+  Forall wf_item its -> Canonical (flat_items [] its) -> nodes_unique (map node_of its) ->
+  (forall a, In a args -> get_node (map node_of its) a = None \/ a <> [x2e]) ->
+  args <> [] ->
+  (forall a, In a args -> st_known w (map node_of its) a) ->
+  repeats_in_head (map node_of its) (idx_targets w (map node_of its) args) ->
+  exists w' tr,
+    step (ACmd e (CRestore true args)) w = (w', OOk [], tr) /\
+    Canonical (idx_of w') /\
+    (forall q, st_selected_spec w (flat_items [] its) args q -> staged w' q = stg (flat_items [] its) q) /\
+    (forall q, ~ st_selected_spec w (flat_items [] its) args q -> staged w' q = staged w q) /\
+    same_wt w w' /\ same_objs w w' /\ ExactFacts.same_meta w w' /\
+    w' = apply_effects tr w /\ Forall (fun ef => is_idx ef = true) tr.
+Proof.
+  intros e c w args its Hr Hc Hs Hi Hx Hn Hwf Hcan Hu Hdot Hne Hknown Hrep.
+  destruct (restore_staged_total e c w args (map node_of its) Hr Hc Hs Hi Hx Hn Hne Hknown Hrep)
+    as (w' & tr & Hstep & [Pc Pd Pk Pw Po Pm] & Hw' & Hg).
+  exists w', tr. split; [exact Hstep|]. split; [exact Pc|].
+  rewrite (flatten_items its Hwf) in Pd.
+  split; [|split; [|auto 10]].
+  - intros q Hq. apply Pd. apply (st_selected_iff w its args q Hwf Hcan Hu Hdot). exact Hq.
+  - intros q Hq. apply Pk. intro H. apply Hq. apply (st_selected_iff w its args q Hwf Hcan Hu Hdot). exact H.
+Qed.
+
+(* (R1) under the simpler, stronger hypotheses "every tracked path can be
+   written" and "no tracked path lies beneath another tracked path" *)
+Lemma wd_selected_staged : forall w args q, wd_selected w args q -> staged w q <> None.
+Proof. intros w args q [a [_ [[-> H]|(_ & H & _)]]]; exact H. Qed.
+
+Definition idx_treelike (w : world) : Prop :=
+  forall q1 q2, staged w q1 <> None -> staged w q2 <> None -> ~ In q1 (ancestors q2).
+
+Corollary restore_worktree_total_simple : forall e c w args,
+  Reachable w -> w_coll w = false -> SmallStore (w_objs w) ->
+  w_inited w = true -> ctx_of w = Some c ->
+  args <> [] ->
+  (forall a, In a args -> wd_known w a) ->
+  (forall q, staged w q <> None -> restorable w q) ->
+  idx_treelike w ->
+  exists w' tr,
+    step (ACmd e (CRestore false args)) w = (w', OOk [], tr) /\
+    restore_wt_result w args w' /\ w' = apply_effects tr w.
+Proof.
+  intros e c w args Hr Hc Hs Hi Hx Hne Hknown Hres Htl.
+  destruct (restore_worktree_total e c w args Hr Hc Hs Hi Hx Hne Hknown) as (w' & tr & H1 & H2 & H3 & _).
+  - intros q Hq. apply Hres. apply (wd_selected_staged w args q Hq).
+  - intros q1 q2 H1 H2. apply Htl; [apply (wd_selected_staged w args q1 H1) | apply (wd_selected_staged w args q2 H2)].
+  - exists w', tr. auto.
+Qed.
+
+(* ================================================================== *)
+(** * 11. Non-vacuity and findings, by closed computation *)
+
+Definition rx_env : env := mkEnv 1700000000 32400.
+(* a repository with one commit holding a, d-old, d/e/y, d/x ... *)
+Definition rx_hist : list action :=
+  [ ACmd rx_env CInit;
+    ACmd rx_env (CConfig false [str "user.name"%string; str "Ada L"%string]);
+    ACmd rx_env (CConfig false [str "user.email"%string; str "ada@example.com"%string]);
+    AEdit (UWrite (str "d/x"%string) (str "one"%string));
+    AEdit (UWrite (str "d/e/y"%string) (str "two"%string));
+    AEdit (UWrite (str "d-old"%string) (str "three"%string));
+    AEdit (UWrite (str "a"%string) (str "four"%string));
+    ACmd rx_env (CAdd [str "."%string]);
+    ACmd rx_env (CCommit (str "first"%string)) ].
+(* ... then: a is modified, a new file n is staged, d/x is removed with [rm],
+   the whole directory d is deleted from disk *)
+Definition rx_hist2 : list action :=
+  [ AEdit (UWrite (str "a"%string) (str "changed"%string));
+    AEdit (UWrite (str "n"%string) (str "new"%string));
+    ACmd rx_env (CAdd [str "n"%string]);
+    ACmd rx_env (CRm [str "d/x"%string]);
+    AEdit (URmTree (str "d"%string)) ].
+Definition rx_w1 : world := Eval vm_compute in run (rx_hist ++ rx_hist2) w_empty.
+
+Lemma rx_w1_run : rx_w1 = run (rx_hist ++ rx_hist2) w_empty.
+Proof. vm_compute. reflexivity. Qed.
+
+Lemma rx_reachable : Reachable rx_w1.
+Proof.
+  exists (rx_hist ++ rx_hist2). split; [|exact rx_w1_run].
+  apply action_ok_b_ok. vm_compute. reflexivity.
+Qed.
+Lemma rx_coll : w_coll rx_w1 = false. Proof. vm_compute. reflexivity. Qed.
+Lemma rx_small : SmallStore (w_objs rx_w1). Proof. apply small_store_b. vm_compute. reflexivity. Qed.
+Lemma rx_inited : w_inited rx_w1 = true. Proof. vm_compute. reflexivity. Qed.
+
+Definition rx_c : ctx :=
+  Eval vm_compute in match ctx_of rx_w1 with Some c => c | None => mkCtx [] [] None [] end.
+Lemma rx_ctx : ctx_of rx_w1 = Some rx_c. Proof. vm_compute. reflexivity. Qed.
+Definition rx_ns : list node :=
+  Eval vm_compute in match head_nodes rx_c rx_w1 with Some ns => ns | None => [] end.
+Lemma rx_head : head_nodes rx_c rx_w1 = Some rx_ns. Proof. vm_compute. reflexivity. Qed.
+
+Example rx_state :
+  map e_path (idx_of rx_w1) = [str "a"%string; str "d-old"%string; str "d/e/y"%string; str "n"%string] /\
+  map e_path (flatten [] rx_ns) = [str "a"%string; str "d-old"%string; str "d/e/y"%string; str "d/x"%string] /\
+  map fst (w_files rx_w1) = [str "a"%string; str "d-old"%string; str "n"%string] /\
+  w_dirs rx_w1 = [].
+Proof. vm_compute. repeat split. Qed.
+
+Lemma rx_canonical : Canonical (idx_of rx_w1).
+Proof. apply (reachable_canonical rx_w1 rx_reachable rx_coll rx_small). Qed.
+
+Lemma rx_tracked : forall q, staged rx_w1 q <> None ->
+  In q [str "a"%string; str "d-old"%string; str "d/e/y"%string; str "n"%string].
+Proof.
+  intros q Hs.
+  destruct (in_dec bytes_eq_dec q (paths (idx_of rx_w1))) as [Hin|Hn].
+  - vm_compute in Hin. vm_compute. exact Hin.
+  - exfalso. apply Hs. rewrite staged_stg. apply (stg_none_iff _ _ rx_canonical). exact Hn.
+Qed.
+
+(* ---------- (R1) applies: restore a d ---------- *)
+Example rx_worktree_total_applies :
+  exists w' tr,
+    step (ACmd rx_env (CRestore false [str "a"%string; str "d"%string])) rx_w1 = (w', OOk [], tr) /\
+    restore_wt_result rx_w1 [str "a"%string; str "d"%string] w' /\ w' = apply_effects tr rx_w1.
+Proof.
+  apply (restore_worktree_total_simple rx_env rx_c rx_w1 _ rx_reachable rx_coll rx_small rx_inited rx_ctx).
+  - discriminate.
+  - intros a [<-|[<-|[]]].
+    + left. vm_compute. discriminate.
+    + right. exists (str "d/e/y"%string). split; [vm_compute; discriminate | vm_compute; reflexivity].
+  - intros q Hs. apply rx_tracked in Hs.
+    repeat (destruct Hs as [<-|Hs]; [first [left; vm_compute; reflexivity | right; vm_compute; reflexivity]|]).
+    contradiction Hs.
+  - intros q1 q2 H1 H2 Hanc. apply rx_tracked in H1. apply rx_tracked in H2.
+    repeat (destruct H1 as [<-|H1];
+            [repeat (destruct H2 as [<-|H2];
+                     [vm_compute in Hanc; repeat (destruct Hanc as [Hanc|Hanc]; [discriminate Hanc|]); exact Hanc|]);
+             contradiction H2|]).
+    contradiction H1.
+Qed.
+
+(* and what it computes: the modified file is back to its staged content, the
+   deleted directory is re-created with the one path still tracked below it
+   (d/x, removed with [rm], is not), nothing else moves *)
+Example rx_worktree_computed :
+  let '(w', o, tr) := step (ACmd rx_env (CRestore false [str "a"%string; str "d"%string])) rx_w1 in
+  o = OOk [] /\
+  tr = [EWriteFile (str "a"%string) (str "four"%string); EMkdirAll (str "d/e"%string);
+        EWriteFile (str "d/e/y"%string) (str "two"%string)] /\
+  map fst (w_files w') = [str "a"%string; str "d-old"%string; str "d/e/y"%string; str "n"%string] /\
+  w_dirs w' = [str "d"%string; str "d/e"%string] /\ w_index w' = w_index rx_w1.
+Proof. vm_compute. repeat split. Qed.
+
+(* ---------- [restorable] is needed ---------- *)
+(* a FILE where a directory is needed: d is now a file, d/e/y is tracked *)
+Definition rx_w_file : world := Eval vm_compute in run [AEdit (UWrite (str "d"%string) (str "in the way"%string))] rx_w1.
+Example rx_restorable_needed_file :
+  ~ restorable rx_w_file (str "d/e/y"%string) /\
+  step (ACmd rx_env (CRestore false [str "d"%string])) rx_w_file = (rx_w_file, OErr, []).
+Proof.
+  split; [intros [H|H]; vm_compute in H; discriminate H | vm_compute; reflexivity].
+Qed.
+(* a DIRECTORY at a selected path: d/e/y is now a directory *)
+Definition rx_w_dir : world := Eval vm_compute in run [AEdit (UWrite (str "d/e/y/z"%string) (str "below"%string))] rx_w1.
+Example rx_restorable_needed_dir :
+  ~ restorable rx_w_dir (str "d/e/y"%string) /\
+  step (ACmd rx_env (CRestore false [str "d"%string])) rx_w_dir = (rx_w_dir, OErr, []).
+Proof.
+  split; [intros [H|H]; vm_compute in H; discriminate H | vm_compute; reflexivity].
+Qed.
+
+(* ---------- (F-1) [wd_flat] is needed ---------- *)
+(* ExactFacts.ex_w4 (reachable) stages d-old AND d-old/b; with both absent from
+   disk each of them is [restorable], yet [restore .] writes ad/x, writes d-old
+   as a file and then fails on d-old/b (its parent is now a file): Err after
+   two writes *)
+Definition rx_w_nest : world := Eval vm_compute in run [AEdit (URmTree (str "d-old"%string))] ex_w4.
+Example rx_flat_needed :
+  (forall q, In q (paths (idx_of rx_w_nest)) -> restorable rx_w_nest q) /\
+  In (str "d-old"%string) (ancestors (str "d-old/b"%string)) /\
+  staged rx_w_nest (str "d-old"%string) <> None /\ staged rx_w_nest (str "d-old/b"%string) <> None /\
+  let '(w', o, tr) := step (ACmd rx_env (CRestore false [str "."%string])) rx_w_nest in
+  o = OErr /\ length tr = 2 /\ file w' (str "d-old"%string) = Some (str "three"%string).
+Proof.
+  split.
+  { intros q Hq. vm_compute in Hq.
+    repeat (destruct Hq as [<-|Hq]; [first [left; vm_compute; reflexivity | right; vm_compute; reflexivity]|]).
+    contradiction Hq. }
+  split; [vm_compute; left; reflexivity|].
+  split; [vm_compute; discriminate|]. split; [vm_compute; discriminate|].
+  vm_compute. repeat split.
+Qed.
+
+(* ---------- (R2) applies: restore --staged d n a ---------- *)
+Example rx_staged_total_applies :
+  exists w' tr,
+    step (ACmd rx_env (CRestore true [str "d"%string; str "n"%string; str "a"%string])) rx_w1 = (w', OOk [], tr) /\
+    restore_st_result rx_w1 rx_ns [str "d"%string; str "n"%string; str "a"%string] w' /\
+    w' = apply_effects tr rx_w1 /\ Forall (fun ef => is_idx ef = true) tr.
+Proof.
+  apply (restore_staged_total rx_env rx_c rx_w1 _ rx_ns rx_reachable rx_coll rx_small rx_inited rx_ctx rx_head).
+  - discriminate.
+  - intros a [<-|[<-|[<-|[]]]].
+    + right. right. left. exists (str "d/e/y"%string). split; [vm_compute; discriminate | vm_compute; reflexivity].
+    + left. vm_compute. discriminate.
+    + left. vm_compute. discriminate.
+  - apply nodup_repeats_in_head.
+    assert (E : idx_targets rx_w1 rx_ns [str "d"%string; str "n"%string; str "a"%string]
+                = [str "d/e/y"%string; str "d/x"%string; str "n"%string; str "a"%string])
+      by (vm_compute; reflexivity).
+    rewrite E.
+    repeat (constructor; [intro H; vm_compute in H; repeat (destruct H as [H|H]; [discriminate H|]); exact H|]).
+    constructor.
+Qed.
+
+(* and what it computes: d/x (removed with [rm]) is staged again with HEAD's
+   id, n (not in HEAD) is unstaged, a and d/e/y keep HEAD's ids; one index
+   write per entry that changes; the work tree is untouched *)
+Example rx_staged_computed :
+  let '(w', o, tr) := step (ACmd rx_env (CRestore true [str "d"%string; str "n"%string; str "a"%string])) rx_w1 in
+  o = OOk [] /\ length tr = 2 /\
+  idx_of w' = flatten [] rx_ns /\ w_files w' = w_files rx_w1 /\ w_dirs w' = w_dirs rx_w1.
+Proof. vm_compute. repeat split. Qed.
+
+(* ---------- (F-2) a path named twice ---------- *)
+(* n is staged but not in HEAD: the first occurrence unstages it, the second
+   finds it neither staged nor in HEAD: Err AFTER the staging area was written *)
+Example rx_staged_twice_fails :
+  let '(w', o, tr) := step (ACmd rx_env (CRestore true [str "n"%string; str "n"%string])) rx_w1 in
+  o = OErr /\ length tr = 1 /\ staged rx_w1 (str "n"%string) <> None /\ staged w' (str "n"%string) = None.
+Proof. vm_compute. repeat split. discriminate. Qed.
+(* the same with a directory and a path beneath it *)
+Definition rx_w_dn : world :=
+  Eval vm_compute in run [AEdit (UWrite (str "d/new"%string) (str "nn"%string)); ACmd rx_env (CAdd [str "d/new"%string])] rx_w1.
+Example rx_staged_overlap_fails :
+  let '(w', o, tr) := step (ACmd rx_env (CRestore true [str "d"%string; str "d/new"%string])) rx_w_dn in
+  o = OErr /\ staged rx_w_dn (str "d/new"%string) <> None /\ staged w' (str "d/new"%string) = None /\
+  staged w' (str "d/x"%string) <> None.
+Proof. vm_compute. repeat split; discriminate. Qed.
+(* a repeated path that IS in HEAD is harmless ([repeats_in_head]) *)
+Example rx_staged_twice_in_head_ok :
+  snd (fst (step (ACmd rx_env (CRestore true [str "d"%string; str "d/x"%string])) rx_w1)) = OOk [].
+Proof. vm_compute. reflexivity. Qed.
+
+(* ---------- (F-3) "." selects staged paths only ---------- *)
+(* d/x is in HEAD's snapshot and beneath "."; [restore --staged .] answers Ok
+   and leaves it unstaged, whereas [restore --staged d] stages it again *)
+Example rx_staged_dot :
+  stg (flatten [] rx_ns) (str "d/x"%string) <> None /\
+  under_dir (str "."%string) (str "d/x"%string) = true /\
+  (let '(w', o, tr) := step (ACmd rx_env (CRestore true [str "."%string])) rx_w1 in
+   o = OOk [] /\ staged w' (str "d/x"%string) = None /\ staged w' (str "n"%string) = None) /\
+  (let '(w', o, tr) := step (ACmd rx_env (CRestore true [str "d"%string])) rx_w1 in
+   o = OOk [] /\ staged w' (str "d/x"%string) = stg (flatten [] rx_ns) (str "d/x"%string)).
+Proof. vm_compute. repeat split; discriminate. Qed.
+
+(* ---------- (R3) applies, both modes ---------- *)
+Example rx_unknown_refused : forall stg_mode,
+  step (ACmd rx_env (CRestore stg_mode [str "a"%string; str "nope"%string; str "d"%string])) rx_w1 = (rx_w1, OErr, []).
+Proof.
+  intro stg_mode.
+  apply (restore_unknown_refused rx_env rx_w1 stg_mode _ (str "nope"%string)).
+  - right. left. reflexivity.
+  - vm_compute. reflexivity.
+  - intros en Hin. vm_compute in Hin.
+    repeat (destruct Hin as [<-|Hin]; [vm_compute; reflexivity|]). contradiction Hin.
+  - intros _ c ns Hx Hn. rewrite rx_ctx in Hx. injection Hx as <-.
+    rewrite rx_head in Hn. injection Hn as <-. vm_compute. reflexivity.
+Qed.
+(* the computation agrees, and without the unknown argument both succeed *)
+Example rx_unknown_computed :
+  step (ACmd rx_env (CRestore false [str "a"%string; str "nope"%string; str "d"%string])) rx_w1 = (rx_w1, OErr, []) /\
+  step (ACmd rx_env (CRestore true [str "a"%string; str "nope"%string; str "d"%string])) rx_w1 = (rx_w1, OErr, []) /\
+  snd (fst (step (ACmd rx_env (CRestore false [str "a"%string; str "d"%string])) rx_w1)) = OOk [] /\
+  snd (fst (step (ACmd rx_env (CRestore true [str "a"%string; str "d"%string])) rx_w1)) = OOk [].
+Proof. vm_compute. repeat split. Qed.
+
+(* ---------- [nodes_unique] holds of the example and the two selections agree ---------- *)
+Ltac rf_nodes_unique :=
+  constructor;
+  [ vm_compute;
+    repeat (constructor; [let H := fresh "H" in intro H; vm_compute in H;
+                          repeat (destruct H as [H|H]; [discriminate H|]); exact H|]);
+    constructor
+  | let c := fresh "c" in let Hc := fresh "Hc" in
+    intros c Hc; vm_compute in Hc;
+    repeat (destruct Hc as [<-|Hc]; [rf_nodes_unique|]); contradiction Hc ].
+
+Lemma rx_nodes_unique : nodes_unique rx_ns.
+Proof. rf_nodes_unique. Qed.
+
+Example rx_selection_exact : forall q,
+  st_selected rx_w1 rx_ns [str "d"%string; str "n"%string] q <->
+  st_selected_spec rx_w1 (flatten [] rx_ns) [str "d"%string; str "n"%string] q.
+Proof.
+  intro q.
+  destruct (reachable_head_nodes rx_w1 rx_c rx_ns rx_reachable rx_coll rx_small rx_ctx rx_head)
+    as (hid & cm & d & _ & _ & _ & _ & (its & Ens & Hwf & Hcan & _) & _).
+  pose proof rx_nodes_unique as Hu. rewrite Ens in Hu |- *.
+  rewrite (flatten_items its Hwf).
+  apply (st_selected_iff rx_w1 its _ q Hwf Hcan Hu).
+  intros a _. rewrite <- Ens.
+  destruct (bytes_eq_dec a [x2e]) as [->|Hne]; [left; vm_compute; reflexivity | right; exact Hne].
+Qed.
+
+(* ================================================================== *)
+Print Assumptions restore_worktree_total.
+Print Assumptions restore_worktree_total_simple.
+Print Assumptions restore_staged_total.
+Print Assumptions restore_staged_total_spec.
+Print Assumptions restore_unknown_refused.
+Print Assumptions restore_unknown_refused_reachable.
+Print Assumptions cmd_restore_wd_total.
+Print Assumptions cmd_restore_idx_total.
+Print Assumptions idx_targets_nodup.
+Print Assumptions head_dir_paths_sound.
+Print Assumptions head_dir_paths_complete.
+Print Assumptions st_selected_iff.
+Print Assumptions rx_worktree_total_applies.
+Print Assumptions rx_staged_total_applies.
+Print Assumptions rx_unknown_refused.
+Print Assumptions rx_flat_needed.
+Print Assumptions rx_staged_twice_fails.
+Print Assumptions rx_staged_dot.
+Print Assumptions rx_selection_exact.
